@@ -504,6 +504,11 @@ async fn run_case(case: &Case, ctx: &mut Ctx) -> String {
         if pager.column_specs().len() == 0 {
             // the session pager's "empty stream" for a non-Rows first response has no columns
             let mut stream = pager.rows_stream::<scylla::value::Row>().unwrap();
+            if consumer == Consumer::Drop(0) {
+                drop(stream);
+                obs.fin = "dropped".to_owned();
+                return obs;
+            }
             obs.fin = match stream.next().await {
                 None => "end".to_owned(),
                 Some(Ok(_)) => "row-without-columns".to_owned(),
